@@ -52,6 +52,7 @@ func run(c *props.Ctx) {
 	plycommon.ListReaders(e)
 	plycommon.REC1Driver(e)
 	plycommon.NAME1(e)
+	plycommon.SENT1(e)
 	decode := map[*ssa.Function]bool{}
 	for _, f := range e.DecodeScope() {
 		decode[f] = true
@@ -73,5 +74,6 @@ func run(c *props.Ctx) {
 	c.R.Floor("UNW-1", 1)
 	c.R.Floor("LAY-4", 22)
 	c.R.Floor("NAME-1", 5)
+	c.R.Floor("SENT-1", 15)
 	c.R.Floor("CFG-1", 3)
 }
